@@ -538,12 +538,16 @@ def rule_exp1(ctx, rels):
         mod = ctx.p.module_by_rel(rel)
         for f in mod.functions.values():
             env = {}
-            for k, v in single_defs(f.node).items():
+            sdefs = single_defs(f.node)
+            for k, v in sdefs.items():
                 try:
                     poly.linear(v)
                     env[k] = v
                 except poly.NonLinear:
                     pass
+            # names bound once to a max(..) / min(..) bound expression
+            env["__defs__"] = {k: v for k, v in sdefs.items()
+                               if k not in env}
 
             def test_cons(t, negate=False):
                 """linear constraints implied by an if-test (integers)"""
@@ -625,15 +629,24 @@ def rule_exp1(ctx, rels):
             def walk(stmts, cons, loopvars, unknown=""):
                 cons = list(cons)
                 for s in stmts:
-                    if isinstance(s, ast.For) and isinstance(s.target,
-                                                             ast.Name):
+                    if isinstance(s, (ast.For, ast.While)):
+                        tnames = {x.id for x in ast.walk(s.target)
+                                  if isinstance(x, ast.Name)} \
+                            if isinstance(s, ast.For) else set()
                         try:
-                            extra = poly.range_constraints(s.target.id,
-                                                           s.iter, env)
-                            walk(s.body, cons + extra,
-                                 loopvars | {s.target.id}, unknown)
-                        except poly.NonLinear:
-                            walk(s.body, cons, loopvars, unknown)
+                            if isinstance(s, ast.While):
+                                raise poly.NonLinear("while loop")
+                            extra, bound = poly.loop_constraints(
+                                s.target, s.iter, env)
+                            walk(s.body, cons + extra, loopvars | bound,
+                                 unknown)
+                        except poly.NonLinear as ex:
+                            # the variables this loop drives are not
+                            # constrained: nothing inside is refuted
+                            why = (f"loop at line {s.lineno} not "
+                                   f"understood: {ex}")
+                            walk(s.body, cons, loopvars | tnames,
+                                 unknown or why)
                         walk(s.orelse, cons, loopvars, unknown)
                         continue
                     if isinstance(s, ast.If):
@@ -865,3 +878,376 @@ def rule_rng1(ctx, only=None):
                 "answer lies there", instance=q)
     if only is None and n < len(RNG_REQUIRED):
         raise AnalysisError("RNG1: table rows skipped")
+
+
+# the model conversions and the maps composed into Point.coords: closed forms
+TOL_CLOSED_FORMS = {
+    HYP: ["kleinian_coords", "hyperboloid_coords", "kleinian_to_poincare",
+          "poincare_to_kleinian", "poincare_to_halfspace",
+          "halfspace_to_poincare", "hyp_to_affine_dist",
+          "project_to_hyperboloid"],
+}
+
+
+def _module_constants(mod):
+    out = {}
+    for st in mod.tree.body:
+        if isinstance(st, ast.Assign) and len(st.targets) == 1 \
+                and isinstance(st.targets[0], ast.Name):
+            v = const_value(st.value)
+            if isinstance(v, (int, float)) and not isinstance(v, bool):
+                out[st.targets[0].id] = v
+    return out
+
+
+def rule_tol1(ctx):
+    r = ctx.r
+    r.rule("TOL1", "the conversions between models are closed forms of their "
+                   "argument: inside them no comparison against a positive "
+                   "tolerance (ERROR_THRESHOLD, a literal 1e-k, also as "
+                   "atol / rtol of np.isclose) decides a value. Such a test "
+                   "replaces the closed form on an open set of inputs -- "
+                   "interior points within the tolerance of a special point "
+                   "-- for which the property's round trips and the metric "
+                   "then fail; an exact test (== 0, np.isinf) does not")
+    n = 0
+    for rel, names in TOL_CLOSED_FORMS.items():
+        mod = ctx.p.module_by_rel(rel)
+        consts = _module_constants(mod)
+        for q in names:
+            f = ctx.p.get_function(rel, q)
+            r.analysed(f)
+            n += 1
+            local = dict(consts)
+            for k, v in single_defs(f.node).items():
+                cv = const_value(v)
+                if isinstance(cv, (int, float)) and not isinstance(cv, bool):
+                    local[k] = cv
+
+            def tol(e):
+                v = const_value(e)
+                if v is None and isinstance(e, ast.Name):
+                    v = local.get(e.id)
+                if isinstance(v, (int, float)) and not isinstance(v, bool) \
+                        and 0 < abs(v) < 1e-2:
+                    return v
+                return None
+            bad = None
+            for c in ast.walk(f.node):
+                if isinstance(c, ast.Compare):
+                    for e in [c.left] + list(c.comparators):
+                        if tol(e) is not None:
+                            bad = (c, tol(e))
+                elif isinstance(c, ast.Call) and dotted(c.func).split(
+                        ".")[-1] in ("isclose", "allclose"):
+                    bad = (c, "its default rtol=1e-05, atol=1e-08")
+                if bad:
+                    break
+            if bad:
+                r.violation(
+                    "TOL1", f"{f.fq}|tolerance", loc(f, bad[0]),
+                    ast.unparse(bad[0])[:120],
+                    f"`{ast.unparse(bad[0])[:70]}` compares with the "
+                    f"tolerance {bad[1]} inside the closed-form conversion "
+                    f"{q}: for the interior / ideal points within that "
+                    "tolerance of the special point the conversion no "
+                    "longer returns the image of its argument, so the round "
+                    "trip through the other model and the distances "
+                    "computed from it are wrong there", instance=q)
+            else:
+                r.ok("TOL1", q, loc(f, f.node), "",
+                     "no tolerance comparison")
+    return n
+
+
+_FORM_PARAMS = ("form", "bilinear_form")
+# the form-taking helpers of the Gram-Schmidt completion, with the position
+# of the form parameter (confirmed by hand; the rule re-reads the position
+# from the definition and fails closed when a helper has vanished)
+FORM_HELPERS = ("apply_bilinear", "normsq", "normalize", "projection",
+                "orthogonal_complement", "indefinite_orthogonalize",
+                "find_isometry")
+FORM_MINKOWSKI_ONLY = ("find_isometry", "indefinite_orthogonalize",
+                       "normalize")
+
+
+def _form_arg(ctx, call, idx, pname):
+    for k in call.keywords:
+        if k.arg == pname:
+            return k.value
+    pos = ctx.p.positional_args(call)
+    if any(isinstance(a, ast.Starred) for a in pos):
+        return "?"
+    return pos[idx] if idx < len(pos) else None
+
+
+def rule_form1(ctx, min_threaded=9, min_minkowski=8):
+    r = ctx.r
+    r.rule("FORM1", "one bilinear form per computation: (a) a helper of "
+                    "utils/core.py that takes a form (find_isometry, "
+                    "indefinite_orthogonalize, orthogonal_complement, "
+                    "projection, normalize, normsq) passes THAT form to "
+                    "every form-taking helper it calls -- never omits it "
+                    "(the default is the Euclidean form) and never "
+                    "substitutes another; (b) hyperbolic.py calls "
+                    "find_isometry / indefinite_orthogonalize / normalize "
+                    "with the Minkowski form (self.minkowski, "
+                    "minkowski(..), or its own form parameter). A frame "
+                    "orthonormalised or normalised with respect to the "
+                    "wrong form is not a matrix of O(n,1)")
+    core = ctx.p.module_by_rel(CORE)
+    sig = {}
+    for nm in FORM_HELPERS:
+        f = ctx.p.get_function(CORE, nm)            # vanished -> exit 2
+        names = [a.arg for a in f.node.args.args]
+        p = next((n for n in names if n in _FORM_PARAMS), None)
+        if p is None:
+            raise AnalysisError(f"FORM1: {nm} no longer has a form "
+                                "parameter (stale table)")
+        sig[nm] = (names.index(p), p)
+    n_a = 0
+    for f in core.functions.values():
+        names = [a.arg for a in f.node.args.args]
+        own = next((n for n in names if n in _FORM_PARAMS), None)
+        if own is None:
+            continue
+        aliases = {own}
+        for k, v in single_defs(f.node).items():
+            if isinstance(v, ast.Name) and v.id == own:
+                aliases.add(k)
+        for c in ast.walk(f.node):
+            if not isinstance(c, ast.Call):
+                continue
+            nm = dotted(c.func).split(".")[-1]
+            if nm not in sig:
+                continue
+            arg = _form_arg(ctx, c, *sig[nm])
+            if arg == "?":
+                continue
+            n_a += 1
+            r.analysed(f)
+            inst = f"{f.name}->{nm}"
+            if isinstance(arg, ast.Name) and arg.id in aliases:
+                r.ok("FORM1", inst, loc(f, c), "", f"passes its `{own}`")
+            else:
+                what = "omits the form (Euclidean default)" if arg is None \
+                    else f"passes `{ast.unparse(arg)[:40]}`"
+                r.violation(
+                    "FORM1", f"{f.fq}|{nm}|form", loc(f, c),
+                    ast.unparse(c)[:120],
+                    f"{f.name} works with respect to its parameter `{own}` "
+                    f"but this call of {nm} {what}: the rows it produces "
+                    "are orthogonal / normalised for a different form, so "
+                    "the completed frame does not preserve the form the "
+                    "caller asked for (for the Minkowski form: the "
+                    "returned matrix is not an isometry)", instance=inst)
+    n_b = 0
+    hyp = ctx.p.module_by_rel(HYP)
+    for f in ctx.p.all_functions:
+        if f.module is not hyp:
+            continue
+        names = [a.arg for a in f.node.args.args]
+        own = next((n for n in names if n in _FORM_PARAMS), None)
+        defs = single_defs(f.node)
+        for c in ast.walk(f.node):
+            if not isinstance(c, ast.Call):
+                continue
+            nm = dotted(c.func).split(".")[-1]
+            if nm not in FORM_MINKOWSKI_ONLY or not dotted(
+                    c.func).startswith("utils."):
+                continue
+            arg = _form_arg(ctx, c, *sig[nm])
+            if arg == "?":
+                continue
+            n_b += 1
+            r.analysed(f)
+            e = arg
+            if isinstance(e, ast.Name) and e.id in defs:
+                e = defs[e.id]
+            mink = e is not None and (
+                (isinstance(e, ast.Attribute) and e.attr == "minkowski")
+                or (isinstance(e, ast.Call) and dotted(e.func).split(
+                    ".")[-1] == "minkowski")
+                or (isinstance(e, ast.Name) and e.id == own))
+            inst = f"{f.qualname}->{nm}"
+            if mink:
+                r.ok("FORM1", inst, loc(f, c), "", "Minkowski form")
+            else:
+                what = "omits the form (Euclidean default)" if arg is None \
+                    else f"passes `{ast.unparse(arg)[:40]}`"
+                r.violation(
+                    "FORM1", f"{f.fq}|{nm}|minkowski", loc(f, c),
+                    ast.unparse(c)[:120],
+                    f"{f.qualname} {what} to utils.{nm}: hyperbolic "
+                    "frames, unit tangent vectors and hyperboloid "
+                    "representatives are orthonormal / of unit length for "
+                    "the Minkowski form; with another form the result is "
+                    "not an isometry (not a point of the hyperboloid)",
+                    instance=inst)
+    if n_a < min_threaded or n_b < min_minkowski:
+        r.note("FORM1", CORE, "form threading",
+               f"{n_a} threaded and {n_b} Minkowski call sites found "
+               f"({min_threaded} / {min_minkowski} confirmed by hand): the "
+               "others are written in a form this rule does not read")
+
+
+def _covers_zero(ix):
+    """does this index / slice select position 0 (of an axis of size >= 2)?
+    -> True / False / None (unknown)"""
+    if isinstance(ix, ast.Slice):
+        if ix.step is not None:
+            return None
+        lo = const_value(ix.lower) if ix.lower is not None else 0
+        if not isinstance(lo, int):
+            return None
+        return lo == 0
+    v = const_value(ix)
+    if isinstance(v, int):
+        return v == 0
+    return None
+
+
+def rule_blk1(ctx):
+    r = ctx.r
+    r.rule("BLK1", "Isometry.elliptic embeds an orthogonal block so that it "
+                   "fixes the time axis: the matrix it fills is written at "
+                   "[0, 0] (the entry 1) and at an index range that does not "
+                   "contain row / column 0 -- a Euclidean orthogonal block "
+                   "that overlaps the time coordinate does not preserve the "
+                   "Minkowski form. The conjugated standard loxodromic is "
+                   "X @ diag(t, 1/t, 1, ..) @ X^-1 with one X and a "
+                   "reciprocal pair")
+    f = ctx.p.get_function(HYP, "Isometry.elliptic")
+    r.analysed(f)
+    # the matrix: the local that is passed to Isometry(...) at the return
+    mats = set()
+    for c in ast.walk(f.node):
+        if isinstance(c, ast.Call) and dotted(c.func) == "Isometry" \
+                and c.args and isinstance(c.args[0], ast.Name):
+            mats.add(c.args[0].id)
+    stores = [s for s in ast.walk(f.node) if isinstance(s, ast.Assign)
+              and len(s.targets) == 1
+              and isinstance(s.targets[0], ast.Subscript)
+              and isinstance(s.targets[0].value, ast.Name)
+              and s.targets[0].value.id in mats]
+    if not mats or not stores:
+        r.note("BLK1", loc(f, f.node), "Isometry.elliptic",
+               "the matrix is not assembled by item assignment into a local "
+               "passed to Isometry(..) (not judged)")
+    for s in stores:
+        sl = s.targets[0].slice
+        idx = list(sl.elts) if isinstance(sl, ast.Tuple) else [sl]
+        idx = [i for i in idx if not (isinstance(i, ast.Constant)
+                                      and i.value is Ellipsis)]
+        inst = f"elliptic:{ast.unparse(s.targets[0])}"
+        if len(idx) != 2:
+            r.note("BLK1", loc(f, s), ast.unparse(s)[:80],
+                   "store with other than two matrix indices (not judged)")
+            continue
+        z = [_covers_zero(i) for i in idx]
+        point = all(not isinstance(i, ast.Slice) for i in idx)
+        if None in z:
+            r.note("BLK1", loc(f, s), ast.unparse(s)[:80],
+                   "index range not constant (not judged)")
+        elif z == [True, True] and point:
+            r.ok("BLK1", inst, loc(f, s), "", "the time-time entry")
+        elif z == [False, False]:
+            r.ok("BLK1", inst, loc(f, s), "", "block disjoint from the time "
+                 "row and column")
+        else:
+            r.violation(
+                "BLK1", f"{f.fq}|{ast.unparse(s.targets[0])}", loc(f, s),
+                ast.unparse(s)[:120],
+                f"`{ast.unparse(s.targets[0])}` writes a block that contains "
+                "row or column 0 (the time coordinate of the hyperboloid "
+                "model): an orthogonal (Euclidean) block acting on the time "
+                "axis does not preserve the form diag(-1, 1, .., 1), so "
+                "Isometry.elliptic / standard_rotation return a matrix that "
+                "is not an isometry", instance=inst)
+    # standard loxodromic: a conjugation by one matrix
+    g = ctx.p.get_function(HYP, "Isometry.standard_loxodromic")
+    r.analysed(g)
+    rets, _env = forward_subst(g.node)
+    prod = None
+    for e in rets:
+        if e is None:
+            continue
+        for c in ast.walk(e):
+            if isinstance(c, ast.BinOp) and isinstance(c.op, ast.MatMult) \
+                    and isinstance(c.left, ast.BinOp) \
+                    and isinstance(c.left.op, ast.MatMult):
+                prod = c
+                break
+    if prod is None:
+        r.note("BLK1", loc(g, g.node), "standard_loxodromic",
+               "not written as a triple matrix product (not judged)")
+        return
+    a, d, b = prod.left.left, prod.left.right, prod.right
+
+    def inv_of(x):
+        if isinstance(x, ast.Call) and dotted(x.func).split(".")[-1] in (
+                "invert", "inv") and x.args:
+            return ast.dump(x.args[0])
+        return None
+    ok = inv_of(b) == ast.dump(a) or inv_of(a) == ast.dump(b)
+    inst = "standard_loxodromic:conjugation"
+    if ok:
+        r.ok("BLK1", inst, loc(g, g.node), "", "X @ D @ X^-1 with one X")
+    else:
+        r.violation(
+            "BLK1", f"{g.fq}|conjugation", loc(g, g.node),
+            ast.unparse(prod)[:140],
+            "the diagonal loxodromic is not conjugated by one matrix and "
+            "its inverse (X @ D @ X^-1): the outer factors are "
+            f"`{ast.unparse(a)[:40]}` and `{ast.unparse(b)[:40]}`, so the "
+            "product is not similar to D and does not preserve the "
+            "Minkowski form", instance=inst)
+    # reciprocal pair in D
+    def recip(u, v):
+        if isinstance(v, ast.BinOp) and isinstance(v.op, ast.Div) \
+                and const_value(v.left) in (1, 1.0) \
+                and ast.dump(v.right) == ast.dump(u):
+            return True
+        if isinstance(v, ast.BinOp) and isinstance(v.op, ast.Pow) \
+                and const_value(v.right) in (-1, -1.0) \
+                and ast.dump(v.left) == ast.dump(u):
+            return True
+        return isinstance(v, ast.Call) and dotted(v.func).split(".")[-1] \
+            == "reciprocal" and len(v.args) == 1 \
+            and ast.dump(v.args[0]) == ast.dump(u)
+
+    def surely_not(u, v):
+        """v is recognisably a function of u that is not 1/u"""
+        if ast.dump(u) == ast.dump(v):
+            return True
+        if isinstance(v, ast.UnaryOp) and isinstance(v.op, ast.USub):
+            return recip(u, v.operand) or ast.dump(v.operand) == ast.dump(u)
+        return isinstance(v, ast.BinOp) and isinstance(v.op, ast.Div) \
+            and ast.dump(v.right) == ast.dump(u) \
+            and isinstance(const_value(v.left), (int, float)) \
+            and const_value(v.left) not in (1, 1.0)
+    pairs = [c for c in ast.walk(d)
+             if isinstance(c, (ast.List, ast.Tuple)) and len(c.elts) == 2
+             and not any(isinstance(e, (ast.List, ast.Tuple, ast.Call))
+                         for e in c.elts)]
+    if not pairs:
+        r.note("BLK1", loc(g, g.node), "standard_loxodromic",
+               "the diagonal is not given as a literal pair (not judged)")
+        return
+    pair = next((c for c in pairs if recip(*c.elts)
+                 or recip(c.elts[1], c.elts[0])), pairs[0])
+    x, y = pair.elts
+    inst = "standard_loxodromic:reciprocal-pair"
+    if recip(x, y) or recip(y, x):
+        r.ok("BLK1", inst, loc(g, g.node), "", "diag(t, 1/t, 1, ..)")
+    elif not (surely_not(x, y) or surely_not(y, x)):
+        r.note("BLK1", loc(g, g.node), ast.unparse(pair)[:80],
+               "the two entries are not recognisably reciprocal or "
+               "non-reciprocal (not judged)")
+    else:
+        r.violation(
+            "BLK1", f"{g.fq}|pair", loc(g, g.node), ast.unparse(pair)[:80],
+            f"the eigenvalues on the two light rays are `{ast.unparse(x)}` "
+            f"and `{ast.unparse(y)}`, not a reciprocal pair t, 1/t: the "
+            "product of the two null directions is not preserved, so the "
+            "matrix is not in O(n,1)", instance=inst)
